@@ -77,11 +77,12 @@ def proofs(ctx):
 
 
 # ---- run one schedule on the real lock -----------------------------------------------------------------------
-def run_schedule(programs, choose):
+def run_schedule(programs, choose, in_section=False):
     import alpenhorn.io.updownlock as udl
 
     events = []
     S = sched.Sched(choose)
+    S.yield_in_section = in_section
 
     def on_event(kind, t, obj, *rest):
         events.append((kind, t, S.now) + tuple(rest))
@@ -232,6 +233,13 @@ def monitor(ctx, programs, events, secs, stuck, count, trace):
                 holders.remove((t, w))
             elif o == "released":
                 ctx.fail("C13:nonholder-release", f"thread {t} released {w} without holding it", rp)
+    # when the whole run uses one state only, nobody ever holds the opposite state: every acquire must succeed
+    used = {op[1] for prog in programs for op in prog if op[0] == "acq"}
+    if len(used) == 1:
+        for e in events:
+            if e[0] == "ret_acq" and e[3] is not True:
+                ctx.fail("C13:refused-without-opposite-holder", f"thread {e[1]} was refused the lock {next(iter(used))!r} (returned {e[3]!r}) although no thread ever held or asked for the other state", rp)
+                break
     if stuck:
         ctx.fail("C13:stuck", f"threads {stuck} never returned (lost wake-up or deadlock); final count {count}", rp)
     if not stuck and count != 0:
@@ -286,10 +294,10 @@ def all_schedules(ctx, programs, terms, cap):
     return n, ex.done
 
 
-def random_schedules(ctx, programs, terms, n):
+def random_schedules(ctx, programs, terms, n, in_section=False):
     for _ in range(n):
         r2 = __import__("random").Random(ctx.rng.getrandbits(32))
-        events, stuck, count, trace = run_schedule(programs, lambda k: r2.randrange(k))
+        events, stuck, count, trace = run_schedule(programs, lambda k: r2.randrange(k), in_section)
         secs, errs = sections(events)
         for e in errs:
             ctx.broke("harness", f"section reconstruction: {e}", str(programs))
@@ -305,6 +313,14 @@ WOKEN_AND_BEATEN = [
     ((("acq", "up", True, None), ("sleep", 3), ("rel", "up")), (("sleep", 3), ("acq", "up", True, None), ("sleep", 5)), (("acq", "down", True, 5),)),
     ((("acq", "down", True, None), ("sleep", 1), ("rel", "down")), (("sleep", 1), ("acq", "down", True, None), ("sleep", 5)), (("acq", "up", True, 2),)),
     ((("acq", "up", True, None), ("sleep", 3), ("rel", "up")), (("sleep", 3), ("acq", "up", True, 2), ("sleep", 3), ("rel", "up"), ("acq", "up", False, None), ("sleep", 3)), (("acq", "down", True, 5),)),
+]
+
+
+# schedules at the granularity of the internal mutex: a thread can be pre-empted inside its critical section; a non-blocking call by
+# another thread meanwhile is decided by the lock's state, not by the mutex being busy
+MUTEX_GRANULARITY = [
+    ((("acq", "up", True, None), ("acq", "up", False, None), ("acq", "up", False, None)), (("acq", "up", True, None), ("rel", "up"), ("acq", "up", True, None))),
+    ((("acq", "down", True, None), ("acq", "down", False, None)), (("acq", "down", True, None),), (("acq", "down", False, None), ("acq", "down", False, None))),
 ]
 
 
@@ -340,6 +356,8 @@ def explore(ctx):
             ctx.sample({"programs": [pa, pb], "schedules_enumerated": n, "exhaustive": done})
     n, done = all_schedules(ctx, ((("acq", "up", True, None), ("sleep", 1)), (("acq", "down", True, None), ("sleep", 5)), (("acq", "down", True, 3),)), terms, 300)
     used += n
+    for progs in MUTEX_GRANULARITY:
+        random_schedules(ctx, progs, terms, 150 if ctx.quick() else 3000, in_section=True)
     for progs in WOKEN_AND_BEATEN:
         n, done = all_schedules(ctx, progs, terms, 100 if ctx.quick() else 2000)
         used += n
